@@ -29,6 +29,11 @@ SIZE = 'frame_buffer::FrameKind::parse_size(%s)' % CHUNK
 
 
 def run(ctx):
+    _run_main7(ctx)
+    _round7(ctx)
+
+
+def _run_main7(ctx):
     with ctx.rule('R06.1', 'size field: None below 7 bytes; size read from bytes 3..7; total = size + 8', floor=4) as r:
         rows = P.table(ctx, PS, ['buf'])
         site = ctx.site(PS)
@@ -147,3 +152,11 @@ def run(ctx):
             rd = [e for e in evs if e.kind == 'call' and e.callee == 'io_loop::Inner::read_from_stream']
             r.check('%s:same-buffer' % hp.split('::')[-1], len(rd) == 1 and S.show(rd[0].args[2]) == 'self.frame_buffer', ctx.site(hp), built=[S.show(e.args[2]) for e in rd],
                     why='handshake and steady state share the buffer, so a frame split across the phase change is not lost')
+
+
+def _round7(ctx):
+    """Found by seeding round 7 (minimal one-line mutations)."""
+    from rules import arms as A
+    with ctx.rule('R06.7', 'a malformed frame is reported as MalformedFrame at every point of the connection, and inbound frames are read while output is pending (shared with C16, C01)', floor=5) as r:
+        A.include(ctx, r, 'c16', 'R16.2', pick=('other-errors-unchanged', 'socket-closed-after-StartOk'))
+        A.include(ctx, r, 'c01', 'R01.6')
